@@ -327,7 +327,49 @@ def same_function(fa, fb, pts, min_defined=2):
     return ('ok', None) if ndef >= min_defined else ('undecided', None)
 
 
-def check_c03(lib, seed, npts=8):
+_FAM_X = [mp.mpf('0.5'), mp.mpf('1.3'), mp.mpf('2.4')]
+
+
+def _fam_params(rng, k):
+    """parameter vectors of mixed sign and magnitude (1e-2 .. 1e2)"""
+    return [mp.mpf(rng.choice([-1, 1]) * 10 ** rng.uniform(-2, 2)) for _ in range(max(k, 1))]
+
+
+def family_features(s, k, rng, nsamp):
+    """Which signs the curves x -> s(x; theta) of a family take at three fixed abscissae, and which signs their two increments
+    take: a list of five sets over {-1, +1}.  Two parametrisations of the SAME family of curves have the same five sets."""
+    feats = [set() for _ in range(5)]
+    for _ in range(nsamp):
+        th = _fam_params(rng, k)
+        try:
+            v = [eval_string(s, x, th) for x in _FAM_X]
+        except Undefined:
+            continue
+        q = v + [v[1] - v[0], v[2] - v[1]]
+        for j, val in enumerate(q):
+            if abs(val) > mp.mpf(10) ** -9 * (1 + max(abs(t) for t in v)):
+                feats[j].add(1 if val > 0 else -1)
+        if all(len(f) == 2 for f in feats):
+            break
+    return feats
+
+
+def family_differs(f, kf, u, ku, rng, nsamp=80, confirm=4000):
+    """None, or a description of a sign a curve of one family takes (at a fixed x, or as an increment) that no sampled curve of the
+    other family takes -- after `confirm` further samples of the other family aimed at finding one."""
+    ff, fu = family_features(f, kf, rng, nsamp), family_features(u, ku, rng, nsamp)
+    names = ['value at x=0.5', 'value at x=1.3', 'value at x=2.4', 'increment 0.5->1.3', 'increment 1.3->2.4']
+    for (a, sa, ka, b, sb, kb) in ((ff, f, kf, fu, u, ku), (fu, u, ku, ff, f, kf)):
+        for j in range(5):
+            miss = a[j] - b[j]
+            if miss:
+                more = family_features(sb, kb, rng, confirm)
+                if miss - more[j]:
+                    return {'quantity': names[j], 'sign': sorted(miss - more[j])[0], 'taken_by': sa, 'never_by': sb}
+    return None
+
+
+def check_c03(lib, seed, npts=8, family_budget=120):
     """The C03 statement on one library.  Returns (violations, stats)."""
     rng = random.Random(seed)
     viol = []
@@ -357,6 +399,13 @@ def check_c03(lib, seed, npts=8):
             stats['nan'] += 1
             if not ku < kf:
                 viol.append({'kind': 'nan-without-fewer-params', 'index': i, 'function': f, 'unique': u, 'chain': chain_s})
+            elif family_budget > 0:
+                # "both still describe the same family of curves": a necessary condition that needs no fitting
+                family_budget -= 1
+                stats['family_checked'] = stats.get('family_checked', 0) + 1
+                d = family_differs(f, kf, u, ku, rng)
+                if d is not None:
+                    viol.append({'kind': 'nan-family-differs', 'index': i, 'function': f, 'unique': u, 'detail': d})
             continue
         if chain_s:
             stats['with_chain'] += 1
